@@ -508,18 +508,22 @@ for k, (path, cls) in enumerate(jobs):
     out[cls] = res
   except Exception as e:
     out[cls] = ['EXC ' + type(e).__name__]
-json.dump(out, sys.stdout)
+json.dump(out, open(sys.argv[3], 'w'))
 '''
 
 def run_workers(ctx, jobs, seeds):
   """translate every (path, class) twice in a fresh interpreter per hash seed; returns {seed: {cls: [text, text]}}"""
-  wp = ctx.scratch / 'c13_worker.py'; wp.write_text(WORKER)
+  wp = ctx.scratch / 'c13_worker.py'
+  if not wp.exists():
+    tmp = ctx.scratch / f'c13_worker_{os.getpid()}_{hashlib.sha1(repr((jobs, seeds)).encode()).hexdigest()[:8]}.tmp'
+    tmp.write_text(WORKER); os.replace(tmp, wp)          # atomic: workers are started from several threads
   jp = ctx.scratch / f'c13_jobs_{len(jobs)}_{hashlib.sha1(json.dumps([jobs, seeds]).encode()).hexdigest()[:10]}.json'; jp.write_text(json.dumps(jobs))
   def one(seed):
     env = dict(os.environ); env['PYTHONHASHSEED'] = str(seed); env['PYTHONPATH'] = str(REPO); env['PYTHONDONTWRITEBYTECODE'] = '1'
-    p = subprocess.run(['timeout', '600', PY, str(wp), str(jp), str(ctx.scratch)], env=env, stdout=subprocess.PIPE, stderr=subprocess.PIPE, text=True, timeout=660)
-    if p.returncode != 0: raise RuntimeError(f'worker (PYTHONHASHSEED={seed}) failed: {p.stderr[-800:]}')
-    return json.loads(p.stdout)
+    op = Path(str(jp) + f'.{seed}.out')
+    p = subprocess.run(['timeout', '600', PY, str(wp), str(jp), str(ctx.scratch), str(op)], env=env, stdout=subprocess.PIPE, stderr=subprocess.PIPE, text=True, timeout=660)
+    if p.returncode != 0 or not op.exists(): raise RuntimeError(f'worker (PYTHONHASHSEED={seed}) failed: {p.stderr[-800:]}')
+    return json.loads(op.read_text())
   with ThreadPoolExecutor(max_workers=4) as ex:
     return dict(zip(seeds, ex.map(one, seeds)))
 
@@ -851,7 +855,13 @@ typedef union unique unique0 unsigned until until_with untyped use uwire var vec
 while wildcard wire with within wor xnor xor'''.split())
 
 def replay(ctx, r):
-  """re-translate the design of a replay file and print the parsed module table / the diagnosis"""
+  """re-translate the design of a replay file and print the parsed module table / the diagnosis; exit 1 while it still fails"""
+  try:
+    return _replay(ctx, r)
+  finally:
+    os.chdir('/'); shutil.rmtree(ctx.scratch, ignore_errors=True)
+
+def _replay(ctx, r):
   setup_impl_path()
   rp = r.get('replay', {})
   src, topn = rp.get('design_source'), rp.get('top')
